@@ -110,6 +110,10 @@ impl Property for C19 {
         }
     }
 
+    fn shrink_iters(&self) -> u32 {
+        2000
+    }
+
     fn tape_len(&self) -> usize {
         900
     }
